@@ -36,6 +36,9 @@ def cases(sc):
             for times in (1, 3):
                 f = intruder_frame(mode, sc)
                 yield dict(sc, intruder=dict(after=after, times=times, mode=mode, **f)), None, base
+    # the second requester is a real client: another controller application on the legitimate client's own ECU
+    for after in range(1, nfr):
+        yield dict(sc, intruder=dict(after=after, times=1, mode='second-ca', sa=dm14h.C2_ADDR, data=[])), None, base
 
 
 def oracle(sc, res, base=None):
@@ -58,11 +61,11 @@ def oracle(sc, res, base=None):
         if e[2] == 'tx' and e[1] == 1 and ((e[3] >> 16) & 0xFF) == 0xD8:
             dest = (e[3] >> 8) & 0xFF
             status = (e[6][1] >> 1) & 7
-            if dest == dm14h.X_ADDR and status not in (1, 5):
+            if dest in (dm14h.X_ADDR, dm14h.C2_ADDR) and status not in (1, 5):
                 v.append(dict(kind='intruder-answered-with-non-busy', data=list(e[6])))
-        if e[2] == 'tx' and e[1] == 1 and ((e[3] >> 16) & 0xFF) == 0xD7 and ((e[3] >> 8) & 0xFF) == dm14h.X_ADDR:
+        if e[2] == 'tx' and e[1] == 1 and ((e[3] >> 16) & 0xFF) == 0xD7 and ((e[3] >> 8) & 0xFF) in (dm14h.X_ADDR, dm14h.C2_ADDR):
             v.append(dict(kind='data-served-to-intruder', data=list(e[6])))
-        if e[2] == 'tx' and e[1] == 1 and ((e[3] >> 16) & 0xFF) == 0xEC and ((e[3] >> 8) & 0xFF) == dm14h.X_ADDR:
+        if e[2] == 'tx' and e[1] == 1 and ((e[3] >> 16) & 0xFF) == 0xEC and ((e[3] >> 8) & 0xFF) in (dm14h.X_ADDR, dm14h.C2_ADDR):
             v.append(dict(kind='data-served-to-intruder', data=list(e[6])))
     if intr['mode'] == 'same-sa-other-pointer':
         # not served in place of the running request: the application was only ever told the legitimate pointer (checked above);
